@@ -179,6 +179,9 @@ func (bd *Header) Deserialization(source *common.ZeroCopySource) error {
 		if err != nil {
 			return err
 		}
+		if err := validatePublicKey(pubkey); err != nil {
+			return err
+		}
 		bd.Bookkeepers = append(bd.Bookkeepers, pubkey)
 	}
 
@@ -268,6 +271,9 @@ func (bd *Header) Deserialize(w io.Reader) error {
 		}
 		pubkey, err := keypair.DeserializePublicKey(buf)
 		if err != nil {
+			return err
+		}
+		if err := validatePublicKey(pubkey); err != nil {
 			return err
 		}
 		bd.Bookkeepers = append(bd.Bookkeepers, pubkey)
